@@ -148,6 +148,61 @@ fn run_with<T: nuts_rs::verif::Transformation<CpuMath<QuadLogp>>>(
     Ok(())
 }
 
+/// Relational checks for the integrators whose step is not rational (ExactNormal: rotation by eps;
+/// Microcanonical: ESH update): a forward step followed by a backward step returns the start (1e-9),
+/// and ExactNormal conserves the energy on an exactly whitened standard normal target (1e-12).
+fn run_relational<T: nuts_rs::verif::Transformation<CpuMath<QuadLogp>>>(
+    mut math: CpuMath<QuadLogp>,
+    transformation: T,
+    case: &J,
+    kind: KineticEnergyKind,
+    standard_normal: bool,
+) -> Result<(), String> {
+    let c = &case["c"];
+    let eps = q(&c["eps"]);
+    let dir = if eps > 0.0 { Direction::Forward } else { Direction::Backward };
+    let back = if eps > 0.0 { Direction::Backward } else { Direction::Forward };
+    let mut ham = TransformedHamiltonian::new(&mut math, transformation, kind);
+    *ham.step_size_mut() = eps.abs();
+    let x0 = qv(&case["x0"]);
+    let Ok(mut state) = ham.init_state(&mut math, &x0) else { return Err("SKIP".into()) };
+    let mut v0 = qv(&c["v"]);
+    if kind == KineticEnergyKind::Microcanonical {
+        let n: f64 = v0.iter().map(|x| x * x).sum::<f64>().sqrt();
+        if n == 0.0 || v0.len() < 2 {
+            return Err("SKIP".into());
+        }
+        v0.iter_mut().for_each(|x| *x /= n);
+    }
+    verif::point_set_velocity(&mut math, &mut state, &v0);
+    let mut rng = <nuts_rs::rand::rngs::ChaCha8Rng as nuts_rs::rand::SeedableRng>::seed_from_u64(0);
+    ham.initialize_trajectory(&mut math, &mut state, false, &mut rng).map_err(|e| format!("{e}"))?;
+    let e0 = state.point_energy();
+    let LeapfrogResult::Ok(out) = ham.leapfrog(&mut math, &state, dir, 1.0, e0, 1e300, &mut Null) else {
+        return Err(format!("{kind:?}: leapfrog did not return Ok"));
+    };
+    let LeapfrogResult::Ok(ret) = ham.leapfrog(&mut math, &out, back, 1.0, e0, 1e300, &mut Null) else {
+        return Err(format!("{kind:?}: backward leapfrog did not return Ok"));
+    };
+    let (a, b) = (verif::point_dump(&mut math, &state), verif::point_dump(&mut math, &ret));
+    for f in ["x", "y", "v"] {
+        let (u, w) = (jv(&a[f]), jv(&b[f]));
+        let scale = 1.0 + u.iter().fold(0.0f64, |m, x| m.max(x.abs()));
+        // the ESH update goes through exp(-d): its inverse is ill-conditioned for large steps
+        let tol = if kind == KineticEnergyKind::Microcanonical { 1e-6 } else { 1e-9 };
+        if u.iter().zip(&w).any(|(p, r)| (p - r).abs() > tol * scale) {
+            return Err(format!("{kind:?}: forward then backward step does not return the start: {f} {u:?} -> {w:?}"));
+        }
+    }
+    if standard_normal && kind == KineticEnergyKind::ExactNormal {
+        let de = verif::point_dump(&mut math, &out)["energy"].as_f64().unwrap() - a["energy"].as_f64().unwrap();
+        if de.abs() > 1e-12 * (1.0 + a["energy"].as_f64().unwrap().abs()) {
+            return Err(format!("ExactNormal does not conserve the energy on a standard normal target: dE = {de}"));
+        }
+    }
+    Ok(())
+}
+
 fn d0_energy(math: &mut CpuMath<QuadLogp>, s: &nuts_rs::verif::State<CpuMath<QuadLogp>, TransformedPoint<CpuMath<QuadLogp>>>) -> f64 {
     verif::point_dump(math, s)["energy"].as_f64().unwrap()
 }
@@ -191,6 +246,28 @@ pub fn replay_case(case: &J) -> Result<usize, String> {
         lr.update(&mut math, stds, meanc, vals, vecs, muc);
         run_with(math, lr, case, "low-rank")?;
         variants += 1;
+    }
+    // relational checks for the non-rational integrators (diagonal / low-rank as the case prescribes)
+    let standard = sigma.iter().all(|x| *x == 1.0) && mean.iter().all(|x| *x == 0.0) && rank == 0
+        && mu.iter().all(|x| *x == 0.0)
+        && logp.m.iter().all(|x| *x == 0.0)
+        && (0..d).all(|i| (0..d).all(|j| logp.p[i][j] == if i == j { 1.0 } else { 0.0 }));
+    for kind in [KineticEnergyKind::ExactNormal, KineticEnergyKind::Microcanonical] {
+        let mut math = CpuMath::new(logp.clone());
+        let mut lr = verif::low_rank_mass_matrix(&mut math);
+        lr.update(
+            &mut math,
+            faer::Col::from_fn(d, |i| sigma[i]),
+            faer::Col::from_fn(d, |i| mean[i]),
+            faer::Col::from_fn(rank, |k| s[k] * s[k]),
+            faer::Mat::from_fn(d, rank, |i, k| u[k][i]),
+            faer::Col::from_fn(d, |i| mu[i]),
+        );
+        match run_relational(math, lr, case, kind, standard) {
+            Ok(()) => variants += 1,
+            Err(e) if e == "SKIP" => {}
+            Err(e) => return Err(e),
+        }
     }
     Ok(variants)
 }
